@@ -358,31 +358,36 @@ def newtonStandard (f : List α) : Nat → List α → List α
     let g2 := scalarMul F g (F.ofNat 2)
     newtonStandard f k (sub F g2 s)
 
-/-- the NTT-domain rounds; `fn` = the first `cur` entries of the Rust buffer `f_ntt` (the rest of the buffer is zero) -/
+/-- "migrate to a larger domain as necessary": if the tracked degree no longer fits, `intt` on the old domain and
+    `ntt` on the next power of two (`lde`); `fn` = the first `cur` entries of the Rust buffer `f_ntt` (the rest of the
+    buffer is zero) -/
+def newtonGrow (full : Nat) (fdeg' : Int) (cur : Nat) (fn : List α) : Option (Nat × List α) :=
+  if fdeg'.toNat ≥ cur then
+    let next := nextPowerOfTwo (1 + fdeg'.toNat)
+    if full < next then none                                -- `&mut v[..new_domain_length]`
+    else
+      match inttChecked N fn with
+      | none => none
+      | some c =>
+        match nttChecked N (resize F c next) with
+        | none => none
+        | some e => some (next, e)
+  else some (cur, fn)
+
+/-- the point-wise Newton step `ff ← 2·ff − ff·ff·dd` against every `full/cur`-th entry of `ntt(self)` -/
+def newtonPointwise (selfNtt : List α) (full cur : Nat) (fn : List α) : List α :=
+  List.zipWith (fun ff d => F.sub (F.mul (F.ofNat 2) ff) (F.mul (F.mul ff ff) d)) fn (stepBy (full / cur) selfNtt)
+
+/-- the NTT-domain rounds -/
 def newtonNttLoop (selfNtt : List α) (full : Nat) (selfDeg : Int) :
     Nat → Int → Nat → List α → Option (Nat × List α)
   | 0, _, cur, fn => some (cur, fn)
   | k + 1, fdeg, cur, fn =>
-    let fdeg' := 2 * fdeg + selfDeg
-    let grown : Option (Nat × List α) :=
-      if fdeg'.toNat ≥ cur then
-        let next := nextPowerOfTwo (1 + fdeg'.toNat)
-        if full < next then none                            -- `&mut v[..new_domain_length]`
-        else
-          match inttChecked N fn with
-          | none => none
-          | some c =>
-            match nttChecked N (resize F c next) with
-            | none => none
-            | some e => some (next, e)
-      else some (cur, fn)
-    match grown with
+    match newtonGrow F N full (2 * fdeg + selfDeg) cur fn with
     | none => none
     | some (cur', fn') =>
-      if cur' = 0 then none else                            -- `step_by(0)`
-      let dd := stepBy (full / cur') selfNtt
-      let fn'' := List.zipWith (fun ff d => F.sub (F.mul (F.ofNat 2) ff) (F.mul (F.mul ff ff) d)) fn' dd
-      newtonNttLoop selfNtt full selfDeg k fdeg' cur' fn''                -- `dd` has `cur'` entries
+      if cur' = 0 then none                                 -- `step_by(0)`
+      else newtonNttLoop selfNtt full selfDeg k (2 * fdeg + selfDeg) cur' (newtonPointwise F selfNtt full cur' fn')
 
 /-- `formal_power_series_inverse_newton(precision)`; `cutoff` = `FORMAL_POWER_SERIES_INVERSE_CUTOFF` -/
 def fpsInverseNewton (cutoff : Nat) (f : List α) (precision : Nat) : Option (List α) :=
